@@ -330,7 +330,14 @@ def run(ctx):
           ("eswzr", "opt", [("int32 x", "x + 1"), ("_", "0 - 1")], lambda v: -1 if v["opt"] is None else v["opt"][1] + 1),
           # arms of three different widths: each arm is converted to the common type directly, not through the types of the arms before it
           ("esw3a", "num3", [("int32 i", "i"), ("float32 f", "f"), ("float64 d", "d")], lambda v: float(v["num3"][1])),
-          ("esw3b", "num3", [("float32 f", "f"), ("int32 i", "i"), ("float64 d", "d")], lambda v: float(v["num3"][1]))]
+          ("esw3b", "num3", [("float32 f", "f"), ("int32 i", "i"), ("float64 d", "d")], lambda v: float(v["num3"][1])),
+          # a switch over a plain (non-union, non-optional) type has one case: its value is that case's, whatever the pattern looks like
+          ("esw1t", "ia", [("int32", "ib + 1")], lambda v: v["ib"] + 1),
+          ("esw1d", "ia", [("_", "ic * 2")], lambda v: v["ic"] * 2),
+          ("esw1v", "ia", [("int32 q", "q + ib")], lambda v: v["ia"] + v["ib"]),
+          ("esw1f", "da", [("float64", "ia")], lambda v: v["ia"]),
+          ("esw1r", "inner", [("EInner e", "e.p + ic")], lambda v: v["inner"][0] + v["ic"]),
+          ("esw1c", "ib", [("int32", "1000")], lambda v: 1000)]
     emodel = ("ENamedUn: [int32, string]\nEInner: !record\n  fields:\n    p: int32\n    q: int32\nEx: !record\n  fields:\n    ia: int32\n    ib: int32\n    ic: int32\n    da: float64\n    db: float64\n    dc: float64\n"
               "    vec: int32*\n    arr: 'int32[row, col]'\n    farr: 'int32[2, 2]'\n    mp: string->int32\n    inner: EInner\n    un: [int32, string]\n    opt: int32?\n    nun: ENamedUn\n    nou: [null, int32, string]\n    ostr: string?\n    obool: bool?\n    ofl: float64?\n    ovec: int32*?\n    num3: [int32, float32, float64]\n    arrt: 'int32[col, row]'\n    dimname: string\n    big1: int32\n    big2: int32\n    ubig: uint32\n  computedFields:\n")
     for nme, src, _ in EXPRS:
